@@ -45,6 +45,10 @@
 #ifndef RLBITS
 #define RLBITS 4		/* BOUND: the requested range has 1 .. 2^RLBITS blocks */
 #endif
+#ifndef LENBITS
+#define LENBITS 4		/* BOUND: extents before the call have 1 .. 2^LENBITS blocks (WITH_BIG: or within 2^LENBITS of the on-disk limit) */
+#endif
+#define LENM ((1u << LENBITS) - 1)
 #ifdef WITH_BIG
 #define WB 1
 #else
@@ -155,6 +159,15 @@ errcode_t ext2fs_extent_goto(ext2_extent_handle_t h, blk64_t blk)
 	int c;
 	(void) h;
 	blk = vf_w(blk);
+	/* the usual case, kept concrete: the start of the left / right extent */
+	if (vf_e[1].valid && blk == vf_e[1].l) {
+		vf_cur = 1;
+		return 0;
+	}
+	if (vf_e[2].valid && blk == vf_e[2].l) {
+		vf_cur = 2;
+		return 0;
+	}
 	c = vf_lower(blk);
 	if (c < 0) {
 		vf_cur = vf_above(0, 1);
@@ -205,10 +218,8 @@ errcode_t ext2fs_extent_replace(ext2_extent_handle_t h, int flags, struct ext2fs
 {
 	int i;
 	(void) h;
-	if (flags || vf_cur < 0) {
-		vf_bad = 1;
-		return EXT2_ET_NO_CURRENT_NODE;
-	}
+	if (flags || vf_cur < 0)
+		vf_bad = 1;		/* reported; the model goes on so that no error branch is invented */
 	vf_check_rec(ex);
 	if (ex == &vf_lx) {
 		PROP(vf_cur == 1, "*left_ext is written onto the node of the left extent");
@@ -524,8 +535,8 @@ static int vf_wf1(const struct vf_ext *e)
 {
 	if (e->len < 1 || e->len > vf_maxlen(e->un))
 		return 1;
-	if (e->p <= FIRSTDB || e->p >= NBLK || e->p + e->len > NBLK)
-		return 3;
+	if (vf_cdown(e->p) <= FIRSTDB || e->p >= NBLK || e->p + e->len > NBLK)
+		return 3;	/* the cluster of the superblock is not file data */
 	if ((e->p & CM) != (e->l & CM))
 		return 4;
 	return 0;
@@ -601,7 +612,7 @@ int main(void)
 	/*
 	 * The file before the call, laid out left to right: slot i starts gap[i] blocks behind the end of slot i-1
 	 * (an absent slot takes no room).  BOUND: start of the window and gaps below 2^LBITS, physical blocks below
-	 * 2^PBITS, lengths 1..16 or (big) within 15 of the on-disk limit of the state.
+	 * 2^PBITS, lengths 1..2^LENBITS or (WITH_BIG) within 2^LENBITS of the on-disk limit of the state.
 	 * MODE 1: slots are further-left, left, right, further-right and the requested range sits between left and
 	 * right: this is the contract extent_fallocate() establishes for ext_falloc_helper(): left (if given) ends
 	 * exactly at range_start, right (if given) starts exactly at range_start + range_len, extents that are not
@@ -642,9 +653,9 @@ int main(void)
 #endif
 #endif
 #ifdef WITH_BIG
-		pre[i].len = IN.big[i] ? vf_maxlen(pre[i].un) - (IN.len[i] & 15) : 1 + (IN.len[i] & 15);
+		pre[i].len = IN.big[i] ? vf_maxlen(pre[i].un) - (IN.len[i] & LENM) : 1 + (IN.len[i] & LENM);
 #else
-		pre[i].len = 1 + (IN.len[i] & 15);
+		pre[i].len = 1 + (IN.len[i] & LENM);
 #endif
 		pre[i].p = IN.p[i] & PM;
 	}
@@ -768,7 +779,7 @@ int main(void)
 				chit++;
 			clsum += (vf_cup(vf_cb[i] + vf_cn[i]) - vf_cdown(vf_cb[i])) >> CRB;
 		}
-	PROP(!zhit || newly_p, "ZEROING: only blocks this call newly mapped are zeroed (no existing data, no foreign block)");
+	PROP(!zhit || newly_p || (chit && !prep_c), "ZEROING: only blocks this call newly mapped (or unmapped blocks of a cluster it newly claimed) are zeroed: no existing data, no foreign block");
 	if (newly_p && !qu && !((flags & EXT2_FALLOCATE_FORCE_INIT) && !(flags & EXT2_FALLOCATE_ZERO_BLOCKS)))
 		PROP(zhit, "ZEROING: a newly mapped block that is visible as initialised has been zeroed");
 	PROP(chit <= 1, "no cluster is claimed twice");
